@@ -450,6 +450,44 @@ def field_dependent_failure_probe(rec, tmp):
         rec.violation('parse_generic_csv-aborts:' + type(e).__name__, f'field-dependent failure probe: {type(e).__name__}: {e}', {'kind': 'field-dependent'})
 
 
+def transform_created_field_probe(rec, tmp):
+    """A statement WITHOUT custom columns, a transform that creates a field and cannot be evaluated for some rows, a rule that reads that field: for a row whose
+    transform fails the field does not exist (the rule is skipped) - whatever an earlier row, an earlier file or an earlier call produced."""
+    from tally.format_parser import parse_format_string
+    from tally.parsers import parse_generic_csv
+    from tally import merchant_utils as mu
+    text = ('field.code = description[14]\n\n[Coded]\nmatch: field.code == "X"\ncategory: Coded\nsubcategory: Yes\ntags: {field.code}\n\n'
+            '[Shop]\nmatch: contains("SHOP")\ncategory: Shopping\nsubcategory: General\n')
+    path = O.write(os.path.join(tmp, 'tf.rules'), text)
+    rules, transforms = O.production_load(path)
+    spec = parse_format_string('{date:%Y-%m-%d},{description},{amount}')
+    descs = ['SHOP #42 CODE X', 'SHOP PLAIN', 'SHOP #07 CODE Y', 'SHOP TWO', 'SHOP #42 CODE X']
+
+    def read(lines):
+        p = os.path.join(tmp, 'tf.csv')
+        with open(p, 'w', encoding='utf-8') as f:
+            f.write('Date,Description,Amount\n' + ''.join('2025-03-04,%s,25.00\n' % d for d in lines))
+        return [(t['category'], t['subcategory'], sorted(t['tags'])) for t in parse_generic_csv(p, spec, rules, source_name='Card', transforms=transforms)]
+    try:
+        alone = {d: read([d])[0] for d in ['SHOP PLAIN', 'SHOP TWO', 'SHOP #07 CODE Y', 'SHOP #42 CODE X']}      # (the failing rows first: nothing has succeeded yet)
+        got = read(descs)
+        rec.count('transform_created_field_rows', len(descs))
+        for d, g in zip(descs, got):
+            if g != alone[d]:
+                rec.violation('failing-transform-leaves-an-earlier-rows-value', f'row {d!r} is classified {g} after the rows {descs[:descs.index(d)]}, and {alone[d]} as the only row of '
+                              f'the file (the transform `field.code = description[14]` cannot be evaluated for the short ones)', {'kind': 'transform-field'})
+                return
+        # the same through two consecutive calls of normalize_merchant (explain "<a>" "<b>")
+        r1 = mu.normalize_merchant('SHOP #42 CODE X', rules, amount=25.0, transforms=transforms)
+        r2 = mu.normalize_merchant('SHOP PLAIN', rules, amount=25.0, transforms=transforms)
+        rec.count('transform_created_field_rows', 2)
+        if (r2[1], r2[2]) != alone['SHOP PLAIN'][:2]:
+            rec.violation('failing-transform-leaves-an-earlier-rows-value', f'normalize_merchant("SHOP PLAIN") right after normalize_merchant("SHOP #42 CODE X") gives {(r2[1], r2[2])}, '
+                          f'alone {alone["SHOP PLAIN"][:2]}', {'kind': 'transform-field'})
+    except Exception as e:
+        rec.violation('parse_generic_csv-aborts:' + type(e).__name__, f'transform-created field probe: {type(e).__name__}: {e}', {'kind': 'transform-field'})
+
+
 def loader_rows_probe(rec, tmp):
     """Supplemental rows as the real loader builds them: a rule that reads a column those rows do not have - by attribute or by subscript - cannot be
     evaluated and is skipped; the outcome is what the file without that rule gives."""
@@ -589,6 +627,7 @@ def run(rec, shard, nshards, t):
         if shard == 0:
             loader_rows_probe(rec, tmp)
             field_dependent_failure_probe(rec, tmp)
+            transform_created_field_probe(rec, tmp)
     finally:
         shutil.rmtree(tmp, ignore_errors=True)
 
@@ -603,6 +642,9 @@ def replay(rec, case):
             return
         if case['kind'] == 'field-dependent':
             field_dependent_failure_probe(rec, tmp)
+            return
+        if case['kind'] == 'transform-field':
+            transform_created_field_probe(rec, tmp)
             return
         if case['kind'] == 'poison':
             rf = R.RuleFile.from_json(case['rf'])
